@@ -315,13 +315,35 @@ def r2_dispatch(ck, prog, run):
         p, P = make_phase(prog, "p"), make_phase(prog, "o")
         A = Num(sp.Symbol("A", real=True), kind="array")
         tag = f"np.{name}(Phase, Quantity in cycles, out=...)"
-        r = attempt(tag, lambda: run_uf(prog, name, [p, d], 0, {"out": TupleV(mk(A, P))}))
+        out_tuple = TupleV(mk(A, P))
+        r = attempt(tag, lambda: run_uf(prog, name, [p, d], 0, {"out": out_tuple}))
         if r is None:
             continue
         res, events, calls, ev = r
         fa = [e[1] for e in events if e[0] == "from_angles"]
         coarse = [t for t in calls if t[1] == "floor_divide"]
         want_q, want_p = name != "remainder", name != "floor_divide"
+        if want_q:
+            # what the caller's quotient array holds afterwards: the corrected quotient, also when the second pass was needed
+            # (a correction added to a *new* array, `fd = fd + fdx`, is returned but never reaches the caller's array)
+            held = out_tuple.items[0]
+            FDo = sp.Function("Ufunc_floor_divide_0")
+            fd0o = FDo(part(p, "int").expr + part(p, "frac").expr, c * CYCLE)
+            Ro = lambda k, w: sp.Symbol(f"R{k}_{w}", real=True)  # noqa: E731
+            fdxo = FDo(Ro(2, "frac") * CYCLE + Ro(2, "int") * CYCLE, c * CYCLE)
+
+            def at_o(expr, nz):
+                e_ = expr.replace(lambda t: getattr(t.func, "__name__", "") == "Ufunc_add_0" and len(t.args) == 2, lambda t: t.args[0] + t.args[1])
+                for a_ in list(e_.atoms(sp.Function)):
+                    if a_.func.__name__ == "CountNonzero":
+                        e_ = e_.subs(a_, sp.Integer(1 if nz else 0))
+                return sp.simplify(e_)
+            if isinstance(held, Num) and len(coarse) > 1:
+                # (when the residual quotient is all zero, adding it or not is the same array)
+                okh = (sp.simplify(at_o(held.expr, False) - fd0o) == 0 or sp.simplify(at_o(held.expr, False) - (fd0o + fdxo)) == 0) \
+                    and sp.simplify(at_o(held.expr, True) - (fd0o + fdxo)) == 0
+                ck.same("R2", f.where, tag + ": contents of the caller's quotient array", "the caller's array holds the corrected quotient (coarse quotient plus residual quotient when that is non-zero)",
+                        okh, found=str(held.expr)[:200], nontrivial=True)
         got_q = bool(coarse) and coarse[0][3].get("out") is A
         got_p = bool(fa) and fa[0].get("out") is P
         same_buf = lambda v: isinstance(v, ObjV) and isinstance(v.attrs.get("_buf"), StrV) and v.attrs["_buf"].s == P.attrs["_buf"].s
@@ -329,6 +351,29 @@ def r2_dispatch(ck, prog, run):
         ok = (got_q == want_q or not want_q) and (not want_q or got_q) and (not want_p or (got_p and back))
         ck.same("R2", f.where, tag, "the quotient is computed into the caller's array and the remainder into the caller's Phase (which is also what is handed back)",
                 ok, found=f"quotient into caller's array: {got_q}; correction built in caller's Phase: {got_p}; handed back: {back}", nontrivial=True)
+    # ---- the in-place forms: r %= d is np.remainder(r, d, out=(r,)); the output IS the dividend.  The correction is computed from
+    #      the dividend (twice when the second pass is needed): every such read must still see the dividend's original parts
+    for tagx, mkd in (("r %= d  [np.remainder(r, d, out=(r,))]", None),):
+        n_fam += 1
+        p = make_phase(prog, "p")
+        pi0, pf0 = part(p, "int").expr, part(p, "frac").expr
+        r = attempt(tagx, lambda: run_uf(prog, "remainder", [p, d], 0, {"out": TupleV([p])}))
+        if r is None:
+            continue
+        res, events, calls, ev = r
+        subs_ = [t for t in calls if t[1] == "subtract"]
+        fa = [e[1] for e in events if e[0] == "from_angles"]
+        # operands of every part-wise subtraction `dividend - correction` (they reach from_angles as phase1/phase2 terms)
+        reads = [a_ for a_ in fa if isinstance(a_.get("phase1"), Num) and "Ufunc_subtract_0" in str(a_["phase1"].expr)]
+        bad = None
+        for a_ in reads:
+            for w, orig in (("phase1", pi0), ("phase2", pf0)):
+                t_ = a_[w].expr if isinstance(a_.get(w), Num) else None
+                if t_ is None or t_.func.__name__ != "Ufunc_subtract_0" or sp.simplify(t_.args[0] - orig) != 0:
+                    bad = f"{w} of the subtraction reads {str(t_)[:90]}, not the dividend's original part {orig}"
+        same_obj = isinstance(res, ObjV) and res.attrs.get("_buf") is not None and p.attrs.get("_buf") is not None and res.attrs["_buf"].s == p.attrs["_buf"].s
+        ck.same("R2", f.where, tagx, "the remainder is computed from the dividend as it was before the call, and lands in the dividend (the in-place target)",
+                bool(reads) and bad is None and same_obj, found=bad or f"{len(reads)} part-wise subtractions; result in the target: {same_obj}", nontrivial=True)
     # ---- add / subtract of n-d phases without out=: the result must not be written into an operand's buffer
     K3 = sp.Integer(3)
     for name in ("add", "subtract"):
